@@ -401,7 +401,9 @@ func (r *mapRun) exec(op absOp) {
 			root, err = h.m.MakeRoot(ctx)
 			return err
 		})
-		r.st.gate = nil
+		if op.Fault {
+			r.st.gate = nil // (only a faulty root installs a gate here; stores shared by several goroutines are left alone)
+		}
 		if ev.Res == "err" && atomic.LoadInt32(&injected) > 0 {
 			ev.Op = "froot" // the error is the injected one: nothing may have changed for anybody
 		}
